@@ -36,7 +36,7 @@ ASSUMPTIONS = [
 def GATES(tier):
     return [("constructions_judged", 1500), ("hierarchies", 60), ("handwritten_parent_calls_compared", 200), ("post_init_checked", 300), ("unknown_kw_rejected", 100), ("overflow_collected", 50),
             ("nonconforming_rejected", 100), ("key_positional", 30), ("key_missing_rejected", 10), ("two_parents", 10), ("plain_grandchild", 10), ("spec_grandchild", 10), ("init_false_parent", 5),
-            ("redeclared_attr", 20), ("redefaulted_attr", 20), ("parent_post_init", 10), ("key_redefaulted", 3)]
+            ("redeclared_attr", 20), ("redefaulted_attr", 20), ("parent_post_init", 10), ("key_redefaulted", 3), ("plain_middle", 5)]
 
 
 class H:
@@ -104,7 +104,18 @@ class H:
             c_attrs["k"] = {"default": "ck", "init": True, "annotated": False, "style": "lit"}
             self.features.add("key_redefaulted")
         c_attrs.update(new_attrs("c", rng.randint(0, 2), allow_init_false=False))
-        self.classes["C"] = {"bases": ["A", "B"] if two else ["A"], "kind": "spec", "attrs": c_attrs, "ctor": "generated", "sigdefs": {}, "key": None, "overflow": "extras" if rng.random() < 0.3 else None,
+        c_bases = ["A", "B"] if two else ["A"]
+        if not two and rng.random() < 0.3:
+            # a plain (undecorated) class between the spec parent and the spec child, re-defaulting one attribute
+            cand = [n for n, a in self.classes["A"]["attrs"].items() if a["init"] and n not in c_attrs]
+            over = {rng.choice(cand): {"default": rng.randint(1, 9) + 500, "init": True, "annotated": False, "style": "lit"}} if cand and rng.random() < 0.7 else {}
+            if self.classes["A"]["ctor"] == "handwritten":
+                over = {}
+            self.classes["PM"] = {"bases": ["A"], "kind": "plain", "attrs": over, "ctor": "inherited", "sigdefs": {}, "key": None, "overflow": None, "post_init": False}
+            self.order.append("PM")
+            c_bases = ["PM"]
+            self.features.add("plain_middle")
+        self.classes["C"] = {"bases": c_bases, "kind": "spec", "attrs": c_attrs, "ctor": "generated", "sigdefs": {}, "key": None, "overflow": "extras" if rng.random() < 0.3 else None,
                              "post_init": rng.random() < 0.6}
         self.order.append("C")
         if self.classes["C"]["overflow"]:
